@@ -171,7 +171,7 @@ def shard_after_task(sh, part):
     for run in range(2 if sh.tier == 'quick' else 4):
         cr = pipe.fresh_core_ranking()
         tr.estimate_importances_minibatches = cr.estimate_importances_minibatches
-        tr.Pool = lambda n: pipe.SyncPool()
+        tr.Pool = lambda *a_, **k_: pipe.SyncPool()
         k, n = rng.randint(3, 6), 600
         header = ['f%d' % i for i in range(k)] + ['label']
         lab = nprng.integers(0, 2, n)
